@@ -93,6 +93,15 @@ func (d *hashDriver) run(o hop) map[string]any {
 		ev["k"], ev["v"] = d.keys[o.k].proj, hashVals[o.v].proj
 	case "keys":
 		text = "(keys h)"
+	// a key list kept across later operations: a value of its own
+	case "keep":
+		text = "(hset kb (quote k) (keys h))"
+	case "kept":
+		text = "(hget kb (quote k))"
+	case "keptset":
+		text = "(aset (hget kb (quote k)) 0 (quote zz))"
+	case "keptwalk":
+		text = "(for [(def i 0) (< i (len (hget kb (quote k)))) (def i (+ i 1))] (hdel h (aget (hget kb (quote k)) i)))"
 	case "len":
 		text = "(len h)"
 	case "hpair":
@@ -275,7 +284,7 @@ func (d *hashDriver) battery(nk int, evs []any) []any {
 }
 
 func (d *hashDriver) fresh() {
-	o := evalSafe(d.env, "(def h (hash))")
+	o := evalSafe(d.env, "(def h (hash))\n(def kb (hash))\n(hset kb (quote k) (keys h))")
 	if o.Kind != "val" {
 		fatal("cannot create hash: %v", o.Err)
 	}
@@ -373,7 +382,8 @@ func init() {
 			r := newRng(c.seed, uint64(i))
 			d.fresh()
 			evs := []any{}
-			ops := []string{"hset", "hset", "hset", "hdel", "hdel", "hget", "hgetd", "keys", "len", "hpair", "range", "str", "json"}
+			ops := []string{"hset", "hset", "hset", "hdel", "hdel", "hget", "hgetd", "keys", "len", "hpair", "range", "str", "json",
+				"keep", "kept", "kept", "keptset", "keptwalk"}
 			for s := 0; s < 30; s++ {
 				o := hop{op: pick(r, ops), k: r.intn(len(d.keys)), v: r.intn(len(hashVals)), i: r.intn(6) - 1}
 				evs = append(evs, d.run(o))
